@@ -58,7 +58,7 @@ struct Inputs {
 }
 
 pub fn run_c07(cx: &mut Cx) {
-    cx.preemptions_left = cx.ch.choose("preemptions", 3) as u32;
+    cx.preemptions_left = cx.ch.choose("preemptions", 5) as u32;
     let suite = gen_suite(cx);
     // mostly small credentials; sometimes one generation needs more than 32 / 64 random scalars
     let big = cx.ch.weighted("big_shape", &[6, 1, 1]);
